@@ -142,19 +142,23 @@ def _decoders(ctx):
     cases.append(("wagner", spc, D.WagnerSoftDecisionDecoder(spc)))
     rm = E.ReedMullerCodeEncoder(1, 3)
     cases.append(("soft_rm", rm, D.ReedMullerDecoder(rm, input_type="soft")))
-    try:
-        pe = E.PolarCodeEncoder(4, 8, load_rank=True) if False else None
-    except Exception:
-        pe = None
+    import contextlib, io
+    with contextlib.redirect_stdout(io.StringIO()):
+        for (kk, nn) in ((4, 8), (5, 16)):
+            pe = E.PolarCodeEncoder(kk, nn)
+            for regime in ("sum_product", "min_sum"):
+                cases.append(("polar_sc_%s_%d" % (regime, nn), pe, D.SuccessiveCancellationDecoder(pe, regime=regime)))
+                cases.append(("polar_bp_%s_%d" % (regime, nn), pe, D.BeliefPropagationPolarDecoder(pe, regime=regime, bp_iters=8)))
     for name, enc, dec in cases:
         k = enc.code_dimension
         for bits in itertools.product([0, 1], repeat=k):
             m = torch.tensor([bits], dtype=torch.float32)
             cw = enc(m)
-            for a in (0.5, 4.0, 50.0):
+            for a in (1e-3, 0.5, 4.0, 12.0, 50.0, 1e3):
                 l = (1 - 2 * cw) * a
                 try:
-                    r = dec(l)
+                    with contextlib.redirect_stdout(io.StringIO()):
+                        r = dec(l)
                     r = r[0] if isinstance(r, tuple) else r
                     got = bstr(r.reshape(-1).tolist())
                 except Exception as e:
